@@ -4,3 +4,4 @@ import ThaiLintModel.Core.GlobLemmas
 import ThaiLintModel.C01.Props
 import ThaiLintModel.C14.Props
 import ThaiLintModel.C15.Props
+import ThaiLintModel.C07.Props
